@@ -1,6 +1,7 @@
 package props
 
 import (
+	"fmt"
 	"strings"
 
 	"verifharness/runner"
@@ -42,6 +43,29 @@ func isBatchKind(k string) bool {
 
 func job(sc wx.Scenario, depth int, weight float64) runner.Job {
 	return runner.Job{Sc: sc, MaxDepth: depth, Weight: weight}
+}
+
+// featurePairs generates one relation scenario per pair of feature groups (thorough tier): the systematic part of the
+// portfolio of sharp alphabets (§1 of DESIGN.md). Each is explored to the given depth within its share of the budget.
+func featurePairs(prop, prefix string, base uint32, k, depth int, tweak func(c *sim.Cfg)) []runner.Job {
+	groups := []struct {
+		name string
+		f    uint32
+	}{
+		{"move", fMove}, {"rel", fRel}, {"retarget", fRet}, {"relx", fRelX}, {"brem", fBRem},
+		{"bexch", fBExch | fQ}, {"bset", fBSet | fQ}, {"reset", fReset}, {"bnew", fBNew},
+	}
+	js := []runner.Job{}
+	for i := 0; i < len(groups); i++ {
+		for j := i + 1; j < len(groups); j++ {
+			c := sim.RelCfg(fmt.Sprintf("%s-pair-%s-%s", prefix, groups[i].name, groups[j].name), 0, k, 0, 8, base|groups[i].f|groups[j].f, oBasic).P(prop)
+			if tweak != nil {
+				tweak(c)
+			}
+			js = append(js, job(sc(c), depth, 0.5))
+		}
+	}
+	return js
 }
 
 func pick(tier string, quick, thorough int) int {
@@ -193,8 +217,8 @@ func init() {
 	}, acceptProps("C05"))
 
 	// ------------------------------------------------------------------ C06 target death / table recycling
-	wxCheck("C06", 90, 900, func(tier string) []runner.Job {
-		return []runner.Job{
+	wxCheck("C06", 90, 1800, func(tier string) []runner.Job {
+		js := []runner.Job{
 			job(sc(sim.RelCfg("c06-rel-k4-any-life", 0, 4, 0, 8, fBld|fMove|fRet, oBasic).P("C06")), pick(tier, 6, 8), 3),
 			job(sc(sim.RelCfg("c06-rel-k4-any-batch", 0, 4, 0, 8, fBld|fRet|fBRem|fBSet, oBasic).P("C06")), pick(tier, 6, 8), 3),
 			job(sc(sim.RelCfg("c06-rel-k4-any-reset", 0, 4, 0, 8, fBld|fMove|fReset|fBRem, oBasic).P("C06")), pick(tier, 6, 8), 2),
@@ -206,17 +230,21 @@ func init() {
 			job(sc(sim.RelCfg("c06-rel-k4-any-reg-reset", 0, 4, 0, 8, fBld|fReg|fReset|fRet, oBasic).P("C06")), pick(tier, 6, 8), 2),
 			job(sc(sim.RichRelCfg("c06-rich-two-nodes", 2, true, fMove|fRet|fBRem|fReset, oBasic).P("C06")), pick(tier, 4, 5), 2),
 		}
+		if tier == "thorough" {
+			js = append(js, featurePairs("C06", "c06-k4", fBld, 4, 8, nil)...)
+		}
+		return js
 	}, func(f *wx.Failure, _ string) bool { return true })
 
 	// ------------------------------------------------------------------ C07 filter caching
-	wxCheck("C07", 90, 900, func(tier string) []runner.Job {
+	wxCheck("C07", 90, 1800, func(tier string) []runner.Job {
 		mk := func(id string, k, parents int, feat uint32, regs int) wx.Scenario {
 			c := sim.RelCfg(id, 0, k, parents, 8, feat|fReg|fBld|fPlain, oBasic).P("C07")
 			c.MaxRegs = regs
 			c.RegSpecs = []int{0, 4, 2}
 			return sc(c)
 		}
-		return []runner.Job{
+		js := []runner.Job{
 			job(mk("c07-rel-k4-any-move", 4, 0, fMove, 1), pick(tier, 7, 10), 4),
 			job(mk("c07-rel-k4-any-retarget", 4, 0, fRet, 1), pick(tier, 6, 9), 2),
 			job(mk("c07-rel-k4-any-brem", 4, 0, fBRem, 1), pick(tier, 6, 9), 2),
@@ -244,6 +272,10 @@ func init() {
 			job(sc(sim.BoundaryTablesCfg("c07-boundary-33-tables", 2, fMove|fRet|fBRem|fReg|fPlain, oBasic).P("C07")), pick(tier, 3, 4), 1),
 			job(sc(sim.BoundaryNodesCfg("c07-boundary-34-nodes", 1, fMove|fReg|fBExch|fPlain, oBasic).P("C07")), pick(tier, 2, 3), 1),
 		}
+		if tier == "thorough" {
+			js = append(js, featurePairs("C07", "c07-k4", fBld|fReg|fPlain, 4, 8, func(c *sim.Cfg) { c.RegSpecs = []int{0, 4, 6} })...)
+		}
+		return js
 	}, func(f *wx.Failure, last string) bool {
 		return f.Prop == "" || f.Prop == "C07" || isBatchKind(last)
 	})
